@@ -376,7 +376,7 @@ def cmp_():
             continue
         bad, stats = compare(rec, val)
         if bad:
-            head = bad[0].split(":")[0]
+            head = bad[0].split(":")[0].split(" of chain")[0].split(" in formulated")[0]
             sig = f"corr:{head}"
             if sig not in sig_seen:
                 sig_seen.add(sig)
